@@ -136,6 +136,14 @@ def run(case, kind, seed=0, n_ops=10, ops=None, profile=None):
                 return False
         return True
     origin_of = {sc['id']: sc['origin'] for sc in case.get('sel', [])}
+    # the fast encoder's decode as a function of graph, vector and fixed flags (Greedy.fast_decode), compared "=": no choice
+    # constraints, outside the known-finding classes
+    fast_vars = None
+    if kind == 'fast' and not case.get('cons') and not case.get('conn') and not dsgcase.guards(case):
+        declared = {e[1]: (j, e[2]) for j, e in enumerate(E) if e[0] == 'sel'}
+        order = sorted((sc['id'] for sc in case['sel']), key=lambda c: 'S%02d' % c)
+        fast_vars = [[c, list(declared[c][1]) if c in declared else list(b.opt_order[c])] for c in order]
+        mg_fast = dsgcase.model_dsg(case, b.opt_order, getattr(b, 'cons_opts', None))
     if ops is None:
         ops = gen_ops(rng, E, n_ops, profile)
     fixed = {}
@@ -184,6 +192,26 @@ def run(case, kind, seed=0, n_ops=10, ops=None, profile=None):
                         if e_[0] == 'sel' and 0 <= v_ < len(e_[2]) and origin_of.get(e_[1]) in obs[2] and e_[2][v_] not in obs[2]:
                             fail('fixed-value-not-respected', 'after %s: x=%s with choice %s fixed to option %s decodes to nodes %s' % (trace[:-1], x, e_[1], e_[2][v_], obs[2]))
                             break
+                if fast_vars is not None and obs[2] is not None:
+                    free_idx = [i for i in range(len(E)) if i not in fixed]
+                    xfull = {i: v for i, v in zip(free_idx, x)}
+                    xfull.update(fixed)
+                    if all(E[j][0] != 'sel' or (float(xfull[j]).is_integer() and 0 <= xfull[j] < len(E[j][2])) for j in xfull):
+                        m = run_dsgm([sx(['fast_decode', True, mg_fast, fast_vars,
+                                          [int(xfull[declared[c][0]]) if c in declared else 0 for c, _ in fast_vars],
+                                          [bool(c in declared and declared[c][0] in fixed) for c, _ in fast_vars]])])[0]
+                        if is_model_error(m) or m == 'none':
+                            fail('model-error', sx(m))
+                        elif m[1] == 'none':
+                            fail('fast-decode-differs-from-model', 'after %s: x=%s fixed=%s: implementation %s nodes %s, the model finds no feasible vector' % (trace[:-1], x, fixed, obs[0], obs[2]))
+                        else:
+                            imp, inst_m = m[1][1]
+                            imp_of = {c: v for (c, _), v in zip(fast_vars, imp)}
+                            want = [(imp_of[E[i][1]] if imp_of[E[i][1]] >= 0 else 0, imp_of[E[i][1]] >= 0) for i in free_idx if E[i][0] == 'sel']
+                            got = [(obs[0][k], bool(obs[1][k])) for k, i in enumerate(free_idx) if E[i][0] == 'sel']
+                            if want != got or sorted(inst_m) != list(obs[2]):
+                                fail('fast-decode-differs-from-model', 'after %s: x=%s fixed=%s: implementation %s nodes %s; model %s nodes %s' % (
+                                    trace[:-1], x, fixed, got, obs[2], want, sorted(inst_m)))
                 if obs != ref:
                     fail('decode-differs-from-fresh-processor', 'after %s: x=%s create=%s got %s, fresh processor %s' % (trace[:-1], x, op[2], obs, ref))
                 if obs[4]:
